@@ -97,6 +97,14 @@ func corpus() [][]string {
 		// [1]*T as a Go-map value: a non-addressable pointer-shaped array (reflect.Copy faulted in sliceFromArray)
 		cse(st(-1, fld("m", mp(barr(false, 3), arr(1, tb(true, 32, 9, "x y"))))),
 			vs(&V{K: "m", M: [][2]*V{{vx(0, 0, 0x67), vl(vx(make([]byte, 32)...))}}})),
+		// Go maps with several entries whose elements would show state carried over from one decoded entry to the
+		// next: slices (append), pointers / nested maps (allocated only when nil), optional and omitempty fields
+		cse(st(-1, fld("s", mp(str, slice(u(16)))), fld("p", mp(u(64), ptr(st(-1, omit("a", u(32)), opt("b", u256), omit("c", slice(str)))))),
+			fld("m", mp(str, mp(str, u(8)))), fld("o", mp(barr(false, 2), st(-1, omit("x", str), opt("y", ptr(st(-1, fld("z", boolT)))), omit("w", bytesT))))),
+			vs(&V{K: "m", M: [][2]*V{{vstr("a"), vl(num(1), num(2))}, {vstr("b"), vl(num(3))}, {vstr("c"), vl()}}},
+				&V{K: "m", M: [][2]*V{{num(1), vsome(vs(num(7), big1337, vl(vstr("q"))))}, {num(2), vsome(vs(num(0), vnil, vl()))}, {num(3), vsome(vs(num(9), vnil, vl(vstr("r"), vstr("s"))))}}},
+				&V{K: "m", M: [][2]*V{{vstr("k1"), &V{K: "m", M: [][2]*V{{vstr("x"), num(1)}, {vstr("y"), num(2)}}}}, {vstr("k2"), &V{K: "m", M: [][2]*V{{vstr("z"), num(3)}}}}, {vstr("k3"), &V{K: "m"}}}},
+				&V{K: "m", M: [][2]*V{{vx(0, 1), vs(vstr("full"), vsome(vs(vT)), vx(1, 2))}, {vx(0, 2), vs(vstr(""), vnil, vx())}, {vx(0, 3), vs(vstr("again"), vnil, vx(9))}}})),
 		// what the form cannot express: duplicate keys, non-string map keys, big.Int out of range, nil big.Int
 		cse(st(7, fld("type", u(8)), fld("a", str), fld("a", str)), vs(num(1), vstr("x"), vstr("y"))),
 		cse(st(-1, fld("m", mp(u(32), str))), vs(&V{K: "m", M: [][2]*V{{num(1), vstr("a")}}}), vs(&V{K: "m"})),
